@@ -1,4 +1,5 @@
 import Solvor.Dlx.Lemmas
+import Solvor.Dlx.Complete
 /-!
 Dlx: the property theorems of C07 (helper lemmas are in `Lemmas.lean`).
 
@@ -182,6 +183,30 @@ theorem algx_limited_sound (L : Lim) :
         subst h; exact mem_rev s hs
       · simp only [Option.some.injEq] at h
         subst h; exact mem_rev s (List.mem_of_mem_take hs)
+
+/-- C07, tie between the mirror (compared with the code on every run) and the proved-complete
+search: with `find_all`, no `max_solutions`, and an iteration budget the search does not
+exhaust, the mirror returns every exact cover exactly once (OPTIMAL), or INFEASIBLE iff none
+exists. -/
+theorem algx_mirror_complete (L : Lim) (hfa : L.findAll = true) (hms : L.maxSol = 0)
+    (hn : M.ncols ≠ 0) (hit : calls M (M.ncols + 1) [] ≤ L.maxIter) :
+    ((solveLim M L).status = .INFEASIBLE ↔ ¬ ∃ S, ResCover M [] S) ∧
+    (∀ sols, (solveLim M L).sols = some sols →
+      (∀ S, ResCover M [] S → ∃ S', S'.Perm S ∧ S' ∈ sols) ∧ sols.Pairwise (fun a b => ¬ a.Perm b)) := by
+  obtain ⟨h1, h2⟩ := solveLim_unlimited M L hfa hms hn hit
+  refine ⟨?_, ?_⟩
+  · rw [h2, ← algx_infeasible_iff]
+    by_cases he : (solve M).isEmpty
+    · simp [he, List.isEmpty_iff.1 he]
+    · have : solve M ≠ [] := fun h => he (List.isEmpty_iff.2 h)
+      simp [he, this]
+  · intro sols hs
+    rw [h1] at hs
+    by_cases he : (solve M).isEmpty
+    · simp [he] at hs
+    · simp only [he, Bool.false_eq_true, if_false, Option.some.injEq] at hs
+      subst hs
+      exact algx_complete_nodup M
 
 /-- C07 "input not modified / same answer again": the model is a pure function of the matrix,
 so this is `rfl`; on the implementation it is checked per run (matrix deep-equal before/after,
